@@ -4,6 +4,7 @@
 //!                 [--seed N] [--replay file]
 mod c19;
 mod c12;
+mod c14;
 mod sysvars;
 mod content;
 mod dump;
@@ -127,6 +128,7 @@ fn main() {
             c12::run_real(&args, &mut r);
             r
         }
+        "c14" => c14::run(&args, &mut model),
         "c20" => http::run(&args, &mut model),
         "c16" => timer::run(&args, &mut model),
         "c17" => locks::run(&args, &mut model),
